@@ -1,6 +1,7 @@
 package harness
 
 import (
+	"io"
 	"errors"
 	"time"
 
@@ -74,6 +75,29 @@ func runC20(e *Env) {
 	post.Outbound = true
 	post.Swallow = swallow
 	nEvents := 0
+	// some inbound messages make the handler behind the idle handler fail (after it has read the data); with the
+	// exception consumed the channel stays open and the timers must go on. Such a message is NOT bound by the
+	// full-idle-period clause: the handler accounts for a message when its HandleRead returns, which a failing
+	// downstream handler prevents, exactly as a failed transport read does ("passed the handler" = came back through it)
+	badReads := make([]bool, nIn)
+	for i := range badReads {
+		badReads[i] = swallow && e.P(4) == 3
+	}
+	nReads := 0
+	post.OnRead = func(ctx netty.InboundContext, msg netty.Message) bool {
+		k := nReads
+		nReads++
+		if k < len(badReads) && badReads[k] {
+			if r, ok := msg.(io.Reader); ok {
+				buf := make([]byte, 64)
+				if _, err := r.Read(buf); err != nil {
+					panic(err) // transport failure, not the handler's
+				}
+				panic(errors.New("inbound handler failed on this message"))
+			}
+		}
+		return false
+	}
 	if closeInActive {
 		post.OnActive = func(ctx netty.ActiveContext) { ctx.Close(errSentinel) }
 	}
@@ -123,8 +147,8 @@ func runC20(e *Env) {
 			tail = target - last
 		}
 	}
-	e.Describe("channel=%s idle=%v handlers=%d(0 read,1 write,2 both) inbound-gaps=%v outbound-gaps=%v silence-before-close=%v panic-at-event=%d swallow-exceptions=%v stalls=%v close-inside-active=%v slow-event-handler-at=%d",
-		cc, d, which, inGaps, outGaps, tail, panicAt, swallow, e.Sim.StallOK, closeInActive, slowAt)
+	e.Describe("channel=%s idle=%v handlers=%d(0 read,1 write,2 both) inbound-gaps=%v outbound-gaps=%v silence-before-close=%v panic-at-event=%d swallow-exceptions=%v stalls=%v close-inside-active=%v slow-event-handler-at=%d failing-inbound-handler-at=%v",
+		cc, d, which, inGaps, outGaps, tail, panicAt, swallow, e.Sim.StallOK, closeInActive, slowAt, badReads)
 	var closeInvAt, closeRetAt time.Duration
 	var closeInv int64
 	closed := false
@@ -226,7 +250,7 @@ func runC20(e *Env) {
 					continue
 				}
 			} else {
-				if ps.End == 0 || ps.Err != nil || i >= len(preReads) || preReads[i].End == 0 {
+				if ps.End == 0 || ps.Err != nil || i >= len(preReads) || preReads[i].End == 0 || (i < len(badReads) && badReads[i]) {
 					continue // still blocked in the transport, failed, or not yet back through the handler
 				}
 				lower, upper = ps.EndAt, preReads[i].EndAt
